@@ -116,7 +116,7 @@ def run_case(case, n_resumes=3, n_kills=2):
             res.discard = 'child-run-failed'
             return res
         ref = json.load(open(os.path.join(snaps, 'result.json')))
-        ckpt = os.path.join(work, 'ckpt.hdf5')
+        ckpt = os.path.join(work, sl.ckpt_name(case['cfg']))
         calls, events, model = tr.mutation_list(tpath, work, VERIF)
         os.remove(tpath)
         if model.unmodelled:
@@ -203,6 +203,7 @@ def run_case(case, n_resumes=3, n_kills=2):
         res.cls('bounds>=2', ref['n_bounds'] >= 2)
         res.cls('networks', case['cfg']['n_networks'] > 0)
         res.cls('blobs', case['spec']['blob'] != 'none')
+        res.cls('ext_' + case['cfg'].get('ext', 'hdf5'))
 
         rng = np.random.default_rng(case['pick'])
         # ---- (d) resume from the directory exactly as a kill would leave it
@@ -257,7 +258,8 @@ def run_case(case, n_resumes=3, n_kills=2):
                         os.makedirs(os.path.join(d3, 'work'))
                         shutil.copyfile(
                             os.path.join(snaps, 'S_%d.hdf5' % x),
-                            os.path.join(d3, 'work', 'ckpt.hdf5'))
+                            os.path.join(d3, 'work',
+                                         sl.ckpt_name(case['cfg'])))
                         o3 = child(cpath, os.path.join(d3, 'work'), d3,
                                    mode='resume')
                         r3 = os.path.join(d3, 'result-resume.json')
@@ -286,7 +288,7 @@ def run_case(case, n_resumes=3, n_kills=2):
             t2 = os.path.join(d, 'trace.txt')
             child(cpath, w2, os.path.join(d, 'snaps'), trace_path=t2,
                   inject=('pwrite64', nth))
-            f2 = os.path.join(w2, 'ckpt.hdf5')
+            f2 = os.path.join(w2, sl.ckpt_name(case['cfg']))
             got = open(f2, 'rb').read() if os.path.exists(f2) else None
             want = [states[k][1]] + ([states[k - 1][1]] if k - 1 in states
                                      else [None])
